@@ -380,3 +380,8 @@ package dataflow
 //@   loop 3 invariant fresh3{fresh,fresh3}: isfresh(frontier) && isfresh(reachable)
 //@   loop 2 invariant pend{wf,pend,pend1,pend3,can2,can3}: forall f *ssa.Function, k int :: has(cg.Nodes, f) && reachable[f] && 0 <= k && k < len(cg.Nodes[f].Out) ==> reachable[cg.Nodes[f].Out[k].Callee.Func] || onWL(frontier, cg.Nodes[f])
 //@   loop 3 invariant pend3{wf,pend,pend3,can2,can3,fresh,fresh3}: forall f *ssa.Function, k int :: has(cg.Nodes, f) && reachable[f] && 0 <= k && k < len(cg.Nodes[f].Out) ==> reachable[cg.Nodes[f].Out[k].Callee.Func] || onWL(frontier, cg.Nodes[f]) || (cg.Nodes[f] == node && k >= iter(edge))
+
+// Instr (the instruction a graph node stands for) is a function of the node alone.
+//@ func Instr
+//@   property C13
+//@   pure
